@@ -1,6 +1,6 @@
 (* C19: the hypotheses of the theorems are satisfiable, and the model computes what one expects on small inputs. *)
 From Coq Require Import ZArith List Bool.
-From C19 Require Import Model ProofsBase ProofsInt ProofsRat ProofsElt ProofsPoly ProofsDest ProofsPair.
+From C19 Require Import Model ProofsBase ProofsInt ProofsRat ProofsElt ProofsPoly ProofsDest ProofsPair ProofsBuf.
 Import ListNotations.
 Local Open Scope Z_scope.
 
@@ -50,3 +50,5 @@ Example ex_rat_exc_keeps : fst (rat_read_into (from_chars [52; 47; 48]) (-1, 2))
 Proof. vm_compute. reflexivity. Qed.
 Example ex_pair_fails : failb (snd (poly_read (elt_read (init_mod 101)) (from_chars (poly_write [88] elt_write [1; 2])) 0)) = true.
 Proof. vm_compute. reflexivity. Qed.
+Example ex_buf_hyp : 0 <= 2 ^ 128 - 1 < 2 ^ (2 ^ Z.of_nat 7) /\ 2 ^ Z.of_nat 7 / 3 + 1 <= Z.of_nat (Z.to_nat (2 ^ Z.of_nat 7 / 3 + 2)).
+Proof. split; [split; [vm_compute; discriminate|reflexivity]|apply source_buffer_ok]. Qed.
